@@ -141,6 +141,16 @@ def make_data(cfg):
         xpix = rpix
     else:
         H, W = rows, 2 * n - 1
+        off = offset_of(cfg)                     # (rows, columns) by which the origin is displaced from the centre
+        if off != (0, 0):
+            # off-centre origin: cut the window out of a larger centred image
+            big = dict(cfg, n=n + OFFSET_MAX, rows=2 * (n + OFFSET_MAX) - 1, opts={})
+            bi, bt, _, _ = make_data(big)
+            r0, c0 = (H - 1) // 2 + off[0], n - 1 + off[1]
+            rs, cs = (n + OFFSET_MAX - 1) - r0, (n + OFFSET_MAX - 1) - c0
+            inp, tru = bi[rs:rs + H, cs:cs + W], bt[rs:rs + H, cs:cs + W]
+            X, Z = np.meshgrid((np.arange(W) - c0) * d, (np.arange(H) - r0) * d)
+            return inp, tru, np.hypot(X, Z) / d, np.abs(X) / d + 0 * Z
         zi = np.arange(H) - (H - 1) / 2.0
         xi = np.arange(W) - (n - 1)
         X, Z = np.meshgrid(xi * d, zi * d)
@@ -169,6 +179,12 @@ def make_data(cfg):
 
 
 _IMG_CACHE = {}
+OFFSET_MAX = 3
+
+
+def offset_of(cfg):
+    """rbasex option origin='offset': the image origin is 2 rows above and 3 columns right of the centre"""
+    return (-2, 3) if cfg['opts'].get('origin') == 'offset' else (0, 0)
 
 
 def run_method(cfg, data):
@@ -183,6 +199,9 @@ def run_method(cfg, data):
         pass_dr, d = False, 1
     if opts.get('origin') == 'tuple':               # rbasex: explicit (row, column) of the centre
         opts['origin'] = ((cfg['rows'] - 1) // 2, cfg['n'] - 1)
+    if opts.get('origin') == 'offset':              # rbasex: origin away from the image centre
+        o = offset_of(cfg)
+        opts['origin'] = ((cfg['rows'] - 1) // 2 + o[0], cfg['n'] - 1 + o[1])
     with warnings.catch_warnings(), np.errstate(all='ignore'), _quiet():
         warnings.simplefilter('ignore')
         if cfg['via'] == 'func':
@@ -238,7 +257,7 @@ def judged(cfg, rpix, xpix):
     intensities by 4 pi r^2 when it draws the image, so its image is judged
     only for r >= 0.3 (n-1)."""
     n = cfg['n']
-    m = (xpix >= AXIS_EXCL) & (rpix <= n - 1 - edge(n))
+    m = (xpix >= AXIS_EXCL) & (rpix <= n - 1 - edge(n) - (OFFSET_MAX if offset_of(cfg) != (0, 0) else 0))
     if cfg['method'] in FULL_METHODS:
         m &= rpix >= AXIS_EXCL
     if cfg['method'] == 'linbasex':
@@ -257,6 +276,13 @@ def _run(cfg):
         n = cfg['n']
         h = (cfg['rows'] + 1) // 2
         truth, rpix, xpix = truth[:h, n - 1:], rpix[:h, n - 1:], xpix[:h, n - 1:]
+    if cfg['opts'].get('out') == 'full' and offset_of(cfg) != (0, 0):
+        # all radii up to rmax = the largest radius with one full quadrant of data, centred on the origin:
+        # the truth there is the centred image of that half-size
+        n, o = cfg['n'], offset_of(cfg)
+        rm = n - 1 + min(abs(o[0]), abs(o[1]))
+        big = make_data(dict(cfg, n=rm + 1, rows=2 * rm + 1, opts={}))
+        truth, rpix, xpix = big[1], big[2], big[3]
     return res, truth, rpix, xpix, extra
 
 
@@ -301,11 +327,13 @@ def region_error(cfg, lo_phys, hi_phys):
 # ---------------------------------------------------------------------------
 
 A3 = [0.0, 0.9553166181245093, float(np.pi / 2)]     # 0, magic angle, 90 degrees
+A4 = [0.0, float(np.pi / 6), float(np.pi / 3), float(np.pi / 2)]
 
 OPTIONS = {
     'inverse': {
         'basex': [{}, {'sigma': 2.0}, {'sigma': 3.0}, {'reg': 1.0}, {'reg': 100.0}, {'correction': False},
-                  {'sigma': 2.0, 'reg': 10.0}, {'sigma': 2.0, 'correction': False}],
+                  {'sigma': 2.0, 'reg': 10.0}, {'sigma': 2.0, 'correction': False},
+                  {'sigma': 0.7, 'reg': 1.0}, {'sigma': 0.5, 'reg': 1.0}],
         'daun': [{'degree': 0}, {'degree': 1}, {'degree': 2}, {'degree': 3},
                  {'degree': 0, 'reg': 1.0}, {'degree': 1, 'reg': ('diff', 1.0)}, {'degree': 1, 'reg': ('L2', 1.0)},
                  {'degree': 2, 'reg': ('L2c', 1.0)}, {'degree': 3, 'reg': ('diff', 10.0)},
@@ -315,16 +343,24 @@ OPTIONS = {
         'onion_bordas': [{}, {'shift_grid': False}],
         'onion_peeling': [{}], 'two_point': [{}], 'three_point': [{}],
         'linbasex': [{}, {'legendre_orders': [0, 2, 4], 'proj_angles': A3}, {'proj_angles': A3},
-                     {'radial_step': 2}, {'legendre_orders': [0]}],
+                     {'radial_step': 2}, {'legendre_orders': [0]}, {'radial_step': 3},
+                     {'radial_step': 2, 'legendre_orders': [0, 2, 4], 'proj_angles': A3},
+                     {'legendre_orders': [0, 2, 4], 'proj_angles': A4}, {'radial_step': 3, 'proj_angles': A3}],
         'rbasex': [{'order': 0}, {}, {'order': 4}, {'order': 2, 'odd': True}, {'reg': ('L2', 10.0)},
-                   {'reg': ('diff', 10.0)}, {'reg': ('SVD', 0.05)}, {'reg': 'pos'}, {'origin': 'tuple'}],
+                   {'reg': ('diff', 10.0)}, {'reg': ('SVD', 0.05)}, {'reg': 'pos'}, {'origin': 'tuple'},
+                   {'order': 6}, {'order': 3}, {'origin': 'offset'}, {'order': 4, 'origin': 'offset'},
+                   {'order': 6, 'origin': 'offset'}, {'order': 3, 'origin': 'offset'}, {'order': 6, 'out': 'full'}],
     },
     'forward': {
-        'basex': [{}, {'sigma': 2.0}, {'correction': False}, {'sigma': 2.0, 'correction': False}],
+        'basex': [{}, {'sigma': 2.0}, {'correction': False}, {'sigma': 2.0, 'correction': False},
+                  {'reg': 1.0}, {'sigma': 0.7, 'reg': 1.0}, {'sigma': 0.5, 'reg': 1.0}, {'sigma': 2.0, 'reg': 10.0}],
         'daun': [{'degree': 0}, {'degree': 1}, {'degree': 2}, {'degree': 3}],
         'direct': [{}, {'correction': False}, {'r': 'grid'}],
         'hansenlaw': [{'hold_order': 0}, {'hold_order': 1}],
-        'rbasex': [{'order': 0}, {}, {'order': 4}, {'order': 2, 'odd': True}, {'origin': 'tuple'}, {'out': 'fold'}],
+        'rbasex': [{'order': 0}, {}, {'order': 4}, {'order': 2, 'odd': True}, {'origin': 'tuple'}, {'out': 'fold'},
+                   {'order': 6}, {'order': 3}, {'origin': 'offset'}, {'order': 4, 'origin': 'offset'},
+                   {'order': 6, 'origin': 'offset'}, {'order': 3, 'origin': 'offset'}, {'order': 6, 'out': 'full'},
+                   {'order': 4, 'origin': 'offset', 'out': 'full'}],
     },
 }
 
@@ -366,7 +402,8 @@ def families_1d(n):
     return [f for f in out if admissible(f, n)]
 
 
-RING_W = {51: [6.0], 101: [6.0, 9.0, 12.0], 201: [9.0, 15.0, 25.0], 300: [12.0, 25.0]}
+RING_W = {51: [6.0], 64: [6.0], 90: [6.0, 9.0], 101: [6.0, 9.0, 12.0], 201: [9.0, 15.0, 25.0], 300: [12.0, 25.0]}
+SIZES_FULL = [25, 51, 64, 90, 101, 201, 300]     # whole-image methods: every residue of (n-1) mod 2 and mod 3
 
 
 def families_2d(n, big=False):
@@ -394,15 +431,25 @@ def compatible(method, opts, fam):
     return True
 
 
+def small_only(method, opts):
+    """option classes that are visited for n <= 101 only (cost)"""
+    if method == 'rbasex':
+        return opts.get('origin') == 'offset' or opts.get('order', 2) in (3, 6) or opts.get('out') == 'full'
+    if method == 'linbasex':
+        return opts.get('radial_step', 1) == 3 or opts.get('proj_angles') == A4 or \
+            (opts.get('radial_step', 1) == 2 and 'legendre_orders' in opts)
+    return False
+
+
 def universe(direction, sizes=SIZES):
     """every configuration the sweeps may visit (rows, dr and via are filled in
     by assign()).  The calibration visits all of them."""
     out = []
     for method, optl in OPTIONS[direction].items():
         for opts in optl:
-            for n in sizes:
+            for n in (SIZES_FULL if (method in FULL_METHODS and sizes is SIZES) else sizes):
                 slow = ((opts.get('reg') in ('nonneg', 'pos')) and n > 101)
-                if slow:
+                if slow or (n > 101 and small_only(method, opts)):
                     continue
                 if method in HALF_METHODS:
                     for fam in families_1d(n):
